@@ -12,7 +12,7 @@ the hex text, so that the empty string is visible.
   U <table> <hex chars>   set a Unicode table (the non-ASCII characters that
                           have the property): `ralpha`, `ralnum` (Rust
                           is_alphabetic / is_alphanumeric), `pyalnum`,
-                          `pydecimal`, `pyprintable` (CPython).      -> `ok`
+                          `pydecimal`, `pyalpha` (CPython).      -> `ok`
   Q <hex s> <hex lower>   all string quoting functions on `s`; `lower` is what
                           `str.lower()` answers for `s`.  -> 12 fields:
                           escape_string quote_literal dollar_quote_literal
@@ -31,7 +31,7 @@ structure DS where
   ralnum : List Char := []
   pyalnum : List Char := []
   pydecimal : List Char := []
-  pyprintable : List Char := []
+  pyalpha : List Char := []
 
 def hexNib (c : Char) : Option Nat :=
   if '0' ≤ c ∧ c ≤ '9' then some (c.toNat - 48)
@@ -89,7 +89,7 @@ def mkU (st : DS) : Lex.UClass := ⟨fun c => st.ralpha.contains c, fun c => st.
 def mkP (st : DS) (s lower : List Char) : Quote.PyUnicode :=
   { isalnum := fun c => st.pyalnum.contains c
     isdecimal := fun c => st.pydecimal.contains c
-    printable := fun c => st.pyprintable.contains c
+    isalpha := fun c => st.pyalpha.contains c
     lower := fun x => if x = s then lower else x.map Lex.asciiLower }
 
 def step (st : DS) (line : String) : DS × String :=
@@ -102,7 +102,7 @@ def step (st : DS) (line : String) : DS × String :=
       else if name == "ralnum" then ({ st with ralnum := cs }, "ok")
       else if name == "pyalnum" then ({ st with pyalnum := cs }, "ok")
       else if name == "pydecimal" then ({ st with pydecimal := cs }, "ok")
-      else if name == "pyprintable" then ({ st with pyprintable := cs }, "ok")
+      else if name == "pyalpha" then ({ st with pyalpha := cs }, "ok")
       else (st, "bad-op")
   | ["Q", h, hl] =>
     match unhexStr h, unhexStr hl with
@@ -110,7 +110,7 @@ def step (st : DS) (line : String) : DS × String :=
       let P := mkP st s l
       (st, " ".intercalate [
         fld (Quote.escapeString s), fld (Quote.quoteLiteral s), fldO (Quote.dollarQuoteLiteral s),
-        fldO (Quote.ppStr P s),
+        fldO (Quote.ppStr s),
         fld (Quote.quoteIdent P s false false false), fld (Quote.quoteIdent P s true false false),
         fld (Quote.quoteIdent P s false true false), fld (Quote.quoteIdent P s false false true),
         fld (Quote.pgQuoteLiteral s), fld (Quote.pgQuoteELiteral s),
